@@ -1,12 +1,14 @@
 # C08 - XML Schema structures: the content-model automaton interpreter
-CLAIMS = {'dfa': 'DFAContentModel::validateContent on a SYMBOLIC automaton (<=3 states x 2 entries, Leaf/##any-namespace/##other entries, mixed, DTD or schema naming): accepted iff the reference run ends in a final state, exact failing index'}
-ASSUMPTIONS = ['the automaton is deterministic on the children considered (UPA), as TraverseSchema/buildDFA guarantee for valid schemas', 'counting states (minOccurs/maxOccurs counters) absent in this harness',
+CLAIMS = {'dfa_count': 'DFAContentModel::validateContent + handleRepetitions on the counting automaton of (a{min,max}, b?) with symbolic 1<=min<=max<=4 or unbounded: accepted iff a^k b? with min<=k<=max', 'dfa': 'DFAContentModel::validateContent on a SYMBOLIC automaton (<=3 states x 2 entries, Leaf/##any-namespace/##other entries, mixed, DTD or schema naming): accepted iff the reference run ends in a final state, exact failing index'}
+ASSUMPTIONS = ['the automaton is deterministic on the children considered (UPA), as TraverseSchema/buildDFA guarantee for valid schemas', 'harness dfa: no counting states; harness dfa_count: the automaton shape buildDFA produces for (a{min,max}, b?) is written down by hand',
                'QName objects built field by field; QName::getRawName lazy construction cut']
 HARNESSES = [
- dict(name='dfa', entry='harness_dfa', srcs=['C08/dfa.cpp'], tus=['validators/common/DFAContentModel.cpp', 'util/XMLString.cpp'],
+ dict(name='dfa', entry='harness_dfa', srcs=['C08/dfa.cpp'], tus=['validators/common/DFAContentModel.cpp', 'framework/XMLContentModel.cpp', 'framework/XMLElementDecl.cpp', 'util/XMLString.cpp'],
       defs={'quick': {'N': 3}, 'thorough': {'N': 4}}, unwind='N+3', timeout={'quick': 900, 'thorough': 1700}),
+ dict(name='dfa_count', entry='harness_dfa_count', srcs=['C08/dfa.cpp'], tus=['validators/common/DFAContentModel.cpp', 'framework/XMLContentModel.cpp', 'framework/XMLElementDecl.cpp', 'util/XMLString.cpp'],
+      defs={'quick': {'NC': 5}, 'thorough': {'NC': 6}}, unwind='NC+3', timeout={'quick': 900, 'thorough': 1700}),
 ]
 LEVEL_TEXT = ('Bounded model checking of the real DFA interpreter with the automaton itself symbolic: ALL transition tables, final-state sets, element-map typings (incl. namespace-constrained wildcards) and child sequences '
               'within the bound - i.e. every content model whose DFA has <= 3 states over 2 particles, not the handful a test builds.')
-LEVEL_NOTE = ('NOT claimed: construction of the automaton (buildDFA, particle expansion), counting states, all-groups, substitution groups, xsi:type/nil, attribute uses, TraverseSchema component constraints, UPA checking '
+LEVEL_NOTE = ('NOT claimed: construction of the automaton (buildDFA, particle expansion), counting states beyond the (a{min,max}, b?) family, all-groups, substitution groups, xsi:type/nil, attribute uses, TraverseSchema component constraints, UPA checking '
               '(heap/graph code outside bounded symbolic execution here). Bounds: 3 states, 2 entries, <= 3 children (quick) / 4.')
